@@ -1,5 +1,5 @@
 From Coq Require Import ExtrOcamlBasic.
 From HV Require Import Base.BSet Gen.Tables Topo.Bind.
 Extraction "c10_model.ml" run linux_run linux_present hid_index all_hids installed legal_call is_binding_call
-  backends_is_thissystem x86_look kcall_cpumask kcall_nodemask bs_is_empty bs_subset
+  backends_is_thissystem thissystem_after x86_look kcall_cpumask kcall_nodemask bs_is_empty bs_subset
   CPUBIND_ALLFLAGS MEMBIND_ALLFLAGS policy_ok.
